@@ -144,6 +144,21 @@ def treeLine (st : TState) (e : SExp) : TState × String :=
     match id.toNat? with
     | some id => treeAct st (.unstall id)
     | none => (st, "bad unstall")
+  | .list [.atom "sip", .atom id, evs] =>
+    -- a slow plain subscriber reads a few events and stops again: they must be the head of what it was offered
+    match id.toNat?, decEvs evs with
+    | some id, some ievs =>
+      let mevs := st.sys.pendingOf id
+      let k := ievs.length
+      let (bk, batch) := st.sys.boundaryOf id
+      let okHead := sameUpToBatchOrder (mevs.take k) ievs ||
+        -- the head reaches into the batch during which the buffer ran full: that batch's order is free
+        (!batch.isEmpty && k > bk && sameUpToBatchOrder (mevs.take bk) (ievs.take bk) &&
+          (ievs.drop bk).all (fun e => countEv e (ievs.drop bk) ≤ countEv e batch))
+      if !okHead then
+        ({ st with dead := true }, s!"reject C05/C10 slow sub node {id} read {showEvs ievs}, the head of what it was offered is {showEvs (mevs.take k)}")
+      else ({ st with sys := st.sys.sip id k }, "ok")
+    | _, _ => (st, "bad sip")
   | .list [.atom "instant", .atom id, .atom n] =>
     match id.toNat?, n.toNat? with
     | some id, some n => ({ st with instant := setNat id n st.instant }, "ok")
